@@ -21,8 +21,10 @@ def ash_cls(ctx):
 
 def inline_ash(stop=()):
     def pol(f: FuncRef, awaited):
-        if f.name in stop or f.is_async:
+        if f.name in stop or (f.is_async and not awaited):
             return False
+        if f.name == "replace" and f.mod == ASH:
+            return True  # the frames' dataclass copy helper
         # methods of the protocol class, and module-level helpers of the ASH module (extracting one must not change a verdict)
         return (f.cls is not None and f.cls.name == "AshProtocol") or (f.cls is None and f.mod == ASH)
 
@@ -291,7 +293,8 @@ def explore_send(ctx, tx_seq=5, outcomes=ACK_OUTCOMES, states=("CONNECTED", "FAI
         s = self_obj(cls, {"_tx_seq": tx_seq, "_rx_seq": Sym("rx"), "_pending_data_frames": {},
                            "_t_rx_ack": Sym("t_rx_ack")},
                      volatile={"_ncp_state": [ns[n] for n in states]})
-        return s, {"frame": Sym("frame")}
+        return s, {"frame": frame_obj(ctx, "DataFrame", frm_num=Sym("caller.frm_num"), re_tx=Sym("caller.re_tx"), ack_num=Sym("caller.ack_num"),
+                                      ezsp_frame=Sym("payload"))}
 
     paths = px.explore(f, setup)
     return f, px, paths, ns
@@ -344,13 +347,12 @@ def r05_send_skeleton(ctx):
             if bad:
                 break
             fr = w.args[0] if w.args else None
-            rep = [e for e in p.events if e.kind == "call" and e.what.endswith(".replace") and e.extra == fr]
-            if not rep or not isinstance(fr, Sym):
-                bad = f"R05.2 write #{k} sends {fr!r}, not the caller's frame with replaced header fields"
+            if not is_frame(fr, "DataFrame"):
+                bad = f"R05.2 write #{k} sends {fr!r}, not a DATA frame built from the caller's frame"
                 break
-            kw = rep[0].kwargs
-            if set(kw) - {"frm_num", "re_tx", "ack_num"}:
-                bad = f"R05.2 replace() changes {sorted(set(kw) - {'frm_num', 're_tx', 'ack_num'})}"
+            kw = fr.fields
+            if kw.get("ezsp_frame") != Sym("payload"):
+                bad = f"R05.2 write #{k} carries payload {kw.get('ezsp_frame')!r}, not the caller's payload"
             elif kw.get("frm_num") != tx0:
                 bad = f"R05.2 write #{k} carries frame number {kw.get('frm_num')!r}, the send took {tx0}"
             elif bool(kw.get("re_tx")) != (k > 0) or isinstance(kw.get("re_tx"), Sym):
@@ -447,10 +449,10 @@ def r05_2(ctx):
         ctx.paths += len(paths)
         for p in paths:
             ws = send_writes(p)
-            rep = [e for e in p.events if e.kind == "call" and e.what.endswith(".replace")]
-            ok = (len(ws) == 1 and rep and rep[0].kwargs.get("frm_num") == t
-                  and p.store["self"].get("_tx_seq") == (t + 1) % 8)
-            ctx.require(ok, f"tx_seq={t}", f"send counter {t}: frame number {rep[0].kwargs.get('frm_num') if rep else None!r}, "
+            sent = ws[0].args[0] if ws and ws[0].args else None
+            num = sent.fields.get("frm_num") if is_frame(sent, "DataFrame") else None
+            ok = (len(ws) == 1 and num == t and p.store["self"].get("_tx_seq") == (t + 1) % 8)
+            ctx.require(ok, f"tx_seq={t}", f"send counter {t}: frame number {num!r}, "
                         f"counter becomes {p.store['self'].get('_tx_seq')!r} (must be {t} and {(t + 1) % 8})",
                         func=f, trace=p.trace())
         ctx.run.shared.setdefault("tx_seq_visited", set()).update(px.visited)
